@@ -21,7 +21,7 @@ for line in open(f"/tmp/verify_seeds{rnd}b.log"):
     if d.get("id") == f"w{rnd}-" + pid + sfx:
         ver = d
 assert ver and ver["demo_with"] != 0 and ver["demo_without"] == 0 and "335 passed" in ver["suite"], ver
-hints = {"8": "async mechanics and ordering - awaits moved, shields, timeouts, cancellation, narrowed clean-up blocks", "6": "changes that need scale, repetition or the passage of time", "7": "changes that only show under a non-default configuration or in the interplay of two features"}
+hints = {"9": "a change that needs something specific to manifest - an unusual place, a particular history, input or moment", "8": "async mechanics and ordering - awaits moved, shields, timeouts, cancellation, narrowed clean-up blocks", "6": "changes that need scale, repetition or the passage of time", "7": "changes that only show under a non-default configuration or in the interplay of two features"}
 meta = {
     "property": pid,
     "round": int(rnd),
